@@ -911,7 +911,7 @@ pub fn alphabet(core_only: bool) -> Vec<Op> {
     ]
 }
 
-fn machine(alphabet_core: bool, max_rounds: usize) -> StakeMachine {
+fn machine(alphabet_core: bool, max_rounds: usize) -> Result<StakeMachine, (V, Vec<String>)> {
     let (sim, w) = build_world();
     // prefix, executed through the same oracle: unstake 1000 units of V0, then one epoch change
     let boot = StakeMachine {
@@ -924,18 +924,36 @@ fn machine(alphabet_core: bool, max_rounds: usize) -> StakeMachine {
         probes: AtomicU64::new(0),
     };
     let mut st = boot.init();
+    st.live.set(true);
     if let Err(e) = boot.state_invariants(&st.obs, "genesis") {
-        mc_core::machinery_error(&format!("genesis state does not satisfy the harness invariants: {e:?}"));
+        return Err((e, vec!["(genesis)".to_string()]));
     }
+    let mut done = vec![];
     for op in [Op::Unstake(0, Units::Thousand), Op::Round(Miss::None)] {
+        done.push(format!("{op:?}"));
         match boot.step(&mut st, &op) {
             Ok(c) if c.contains(":ok") => {}
-            other => mc_core::machinery_error(&format!("prefix operation {op:?} did not succeed: {other:?}")),
+            Ok(c) => mc_core::machinery_error(&format!("prefix operation {op:?} did not succeed: {c}")),
+            Err(v) => return Err((v, done)),
         }
     }
     let mut model = st.model.clone();
     model.rounds = 0;
-    StakeMachine { root: st.sim.create_snapshot(), root_model: model, ..boot }
+    let root = st.sim.create_snapshot();
+    boot.infos.lock().unwrap().clear();
+    boot.probes.store(0, Ordering::Relaxed);
+    Ok(StakeMachine { root, root_model: model, ..boot })
+}
+
+/// a violation while building the root state (genesis + prefix) is a violation of the property
+fn machine_or_report(ctx: &Ctx, core: bool, max_rounds: usize) -> Option<StakeMachine> {
+    match machine(core, max_rounds) {
+        Ok(m) => Some(m),
+        Err(((k, w), hist)) => {
+            ctx.violation(format!("prefix:{k}"), w, json!({"base": "prefix", "history": hist}));
+            None
+        }
+    }
 }
 
 fn replay_history(m: &StakeMachine, history: &[String]) -> Vec<Result<String, V>> {
@@ -961,7 +979,9 @@ fn replay_history(m: &StakeMachine, history: &[String]) -> Vec<Result<String, V>
 pub fn run(ctx: Ctx) -> ! {
     if let Some(case) = ctx.read_replay_case() {
         let hist: Vec<String> = case.get("history").and_then(|h| h.as_array()).map(|a| a.iter().filter_map(|x| x.as_str().map(|s| s.to_string())).collect()).unwrap_or_default();
-        let m = machine(false, 99);
+        let Some(m) = machine_or_report(&ctx, false, 99) else {
+            ctx.finish(Level::ModelChecking, "replay: the prefix already violates", 0, false, serde_json::Map::new(), &[]);
+        };
         for (h, r) in hist.iter().zip(replay_history(&m, &hist)) {
             match r {
                 Ok(c) => {
@@ -977,23 +997,29 @@ pub fn run(ctx: Ctx) -> ! {
         ctx.finish(Level::ModelChecking, "replay of one recorded history", 0, false, serde_json::Map::new(), &[]);
     }
 
-    // (full-alphabet depth, core-alphabet depth, wall cap per exploration)
-    let (d_full, d_core, cap) = if ctx.quick() { (3usize, 4usize, 25.0) } else { (4, 6, 540.0) };
+    // depth bounds: quick = fixed (full alphabet 3, core alphabet 5); thorough = planned maximum (5 / 7), the depth
+    // actually explored is chosen by a timed calibration so that the run fits its budget
+    let (d_full, d_core) = if ctx.quick() { (3usize, 5usize) } else { (5, 7) };
     let mut total = BfsStats::default();
     let mut parts = serde_json::Map::new();
     let mut probes = 0;
     let mut alph = serde_json::Map::new();
     let mut capped = vec![];
-    for (name, core, depth) in [("full-alphabet", false, d_full), ("core-alphabet", true, d_core)] {
-        let m = machine(core, 3);
+    let t0 = std::time::Instant::now();
+    for (name, core, planned, d_cal, budget) in [("full-alphabet", false, d_full, 3usize, 900.0), ("core-alphabet", true, d_core, 4usize, 300.0)] {
+        let Some(m) = machine_or_report(&ctx, core, 3) else { break };
+        let (depth, plan) = if ctx.quick() { (planned, json!(null)) } else { crate::plan::choose_depth(&m, name, d_cal, planned, budget) };
+        m.infos.lock().unwrap().clear();
+        m.probes.store(0, Ordering::Relaxed);
         alph.insert(name.to_string(), json!(m.alphabet.iter().map(|o| format!("{o:?}")).collect::<Vec<_>>()));
-        let s = bfs(&ctx, &m, name, depth, 3_000_000, cap);
+        let wall_cap = if ctx.quick() { if core { (50.0 - t0.elapsed().as_secs_f64()).max(1.0) } else { 25.0 } } else { 3.0 * budget };
+        let s = bfs(&ctx, &m, name, depth, 3_000_000, wall_cap);
         if s.capped {
             capped.push(format!("{name} (completed depth {})", s.depth_completed));
         }
         parts.insert(
             name.to_string(),
-            json!({"depth_bound": depth, "depth_completed": s.depth_completed, "states": s.states, "transitions": s.transitions, "per_depth_new_states": s.per_depth_states, "alphabet": m.alphabet.len(), "capped": s.capped}),
+            json!({"depth_bound": depth, "depth_completed": s.depth_completed, "states": s.states, "transitions": s.transitions, "per_depth_new_states": s.per_depth_states, "alphabet": m.alphabet.len(), "capped": s.capped, "plan": plan}),
         );
         total.add(&s);
         probes += m.probes.load(Ordering::Relaxed);
